@@ -305,7 +305,10 @@ pub fn run(ctx: &Ctx) -> Report {
     return report;
   }
   // ---- CLI: create --node, show --json, link --peer
-  for text in valid_samples.iter().take(ctx.n(12, 40) as usize) {
+  // hosts made of characters that are legal in a domain but reserved in a query string come first
+  let reserved_hosts = ["a+b.example.com:6881", "a&b.example.com:1", "k=v.example:2", "semi;colon.example:3", "a,b.example:4", "ex!ample$.com:5", "(paren).example:6", "tilde~under_score.example:7", "star*.example:9", "quote'.example:10"];
+  let cli_texts: Vec<String> = reserved_hosts.iter().map(|s| s.to_string()).filter(|t| imdl::verif::hostport_parse(t).is_ok()).chain(valid_samples.iter().take(ctx.n(12, 40) as usize).cloned()).collect();
+  for text in cli_texts.iter() {
     let want = imdl::verif::hostport_parse(text).unwrap_or_default();
     let sb = Sandbox::new(&ctx.work, "c17");
     sb.write("in", b"x");
@@ -320,9 +323,39 @@ pub fn run(ctx: &Ctx) -> Report {
     let show = Cmd::new(&ctx.imdl, &["torrent", "show", "--json", "--input", "o.torrent"]).cwd(&sb.root).run();
     let nodes: Vec<String> = serde_json::from_str::<serde_json::Value>(&show.stdout_s()).ok().and_then(|v| v.get("dht_nodes").and_then(|n| n.as_array()).map(|a| a.iter().filter_map(|x| x.as_str().map(|s| s.to_string())).collect())).unwrap_or_default();
     let link = Cmd::new(&ctx.imdl, &["torrent", "link", "--input", "o.torrent", "--peer", text]).cwd(&sb.root).run();
-    let pe = link.stdout_s().split("&x.pe=").nth(1).map(|s| s.trim().to_string());
-    if nodes != vec![want.clone()] || pe.as_deref() != Some(want.as_str()) {
-      report.fail("property", "hostport-cli", case, format!("given `{text}` (normalised `{want}`): show --json dht_nodes {nodes:?}, link x.pe {pe:?}"));
+    // read the printed link the way any URI consumer does: split the query at `&`, each pair at its first `=`,
+    // percent-decode; in both conventions for `+`
+    let link_text = link.stdout_s();
+    let query = link_text.trim().split_once('?').map(|x| x.1.to_string()).unwrap_or_default();
+    let decode = |s: &str, plus_space: bool| -> String {
+      let b = s.as_bytes();
+      let mut out = Vec::new();
+      let mut i = 0;
+      while i < b.len() {
+        if b[i] == b'%' && i + 2 < b.len() && s.is_char_boundary(i + 1) && s.is_char_boundary(i + 3) {
+          if let Ok(v) = u8::from_str_radix(&s[i + 1..i + 3], 16) {
+            out.push(v);
+            i += 3;
+            continue;
+          }
+        }
+        out.push(if plus_space && b[i] == b'+' { b' ' } else { b[i] });
+        i += 1;
+      }
+      String::from_utf8_lossy(&out).into_owned()
+    };
+    let mut bad = None;
+    for plus_space in [false, true] {
+      let pe: Vec<String> = query.split('&').filter_map(|kv| kv.split_once('=')).filter(|(k, _)| decode(k, plus_space) == "x.pe").map(|(_, v)| decode(v, plus_space)).collect();
+      if pe != vec![want.clone()] {
+        bad = Some(format!("link `{}` read with `+` as {}: x.pe = {pe:?}", link_text.trim(), if plus_space { "space" } else { "itself" }));
+      }
+    }
+    if nodes != vec![want.clone()] {
+      bad = Some(format!("show --json dht_nodes {nodes:?}"));
+    }
+    if let Some(b) = bad {
+      report.fail("property", "hostport-cli", case, format!("given `{text}` (normalised `{want}`): {b}"));
     }
   }
   report
